@@ -446,6 +446,7 @@ type Gate struct {
 	Msg    string
 	Cond   *Clause
 	Props  []string
+	Before string // when set: the gate guards every call of this callee instead of every successful return
 }
 
 type SpecFunc struct {
@@ -626,13 +627,28 @@ func (db *SpecDB) parseSpecText(text, file, pkgPath string) error {
 				return fail("gate: unterminated message")
 			}
 			msg := r[1 : j+1]
-			condSrc := strings.TrimSpace(strings.TrimPrefix(strings.TrimSpace(r[j+2:]), ":"))
+			tail := strings.TrimSpace(r[j+2:])
+			before := ""
+			if strings.HasPrefix(tail, "before ") {
+				// gate "message" before "callee": condition
+				t2 := strings.TrimSpace(strings.TrimPrefix(tail, "before "))
+				if !strings.HasPrefix(t2, "\"") {
+					return fail("gate \"message\" before \"callee\": condition")
+				}
+				k := strings.Index(t2[1:], "\"")
+				if k < 0 {
+					return fail("gate: unterminated callee")
+				}
+				before = t2[1 : k+1]
+				tail = strings.TrimSpace(t2[k+2:])
+			}
+			condSrc := strings.TrimSpace(strings.TrimPrefix(tail, ":"))
 			cl, err := parseClause(condSrc, file, l.line)
 			if err != nil {
 				return err
 			}
 			cl.Props = props
-			cur.Gates = append(cur.Gates, &Gate{Msg: msg, Cond: cl, Props: props})
+			cur.Gates = append(cur.Gates, &Gate{Msg: msg, Cond: cl, Props: props, Before: before})
 		case "ensures-split":
 			// ensures-split <selector> <lo> <hi> label: body
 			// expands to one clause per value lo..hi of the selector plus one for all other values,
